@@ -23,6 +23,7 @@ func (e *executionContext) AppendLog(ctx context.Context, log *ledger.Log) (*led
 		return log.ChainLog(nil), ret, nil
 	}
 
+	verifhook.BeforeLock(ctx, "append", &e.commander.appendMu)
 	e.commander.appendMu.Lock()
 	defer e.commander.appendMu.Unlock()
 
@@ -37,6 +38,7 @@ func (e *executionContext) appendTransactionLog(ctx context.Context, logBuilder 
 		return e.AppendLog(ctx, logBuilder(e.commander.peekTXID()))
 	}
 
+	verifhook.BeforeLock(ctx, "append", &e.commander.appendMu)
 	e.commander.appendMu.Lock()
 	defer e.commander.appendMu.Unlock()
 
